@@ -703,3 +703,83 @@ mod tests {
         Ok(())
     }
 }
+
+/// Verification hooks (cargo feature `verif`): access to the private frame codec and to the initiator
+/// loop for a test harness. Nothing in here is used by the crate itself.
+#[cfg(feature = "verif")]
+#[allow(missing_docs, missing_debug_implementations)]
+pub mod verif {
+    use super::*;
+
+    /// Mirror of the private wire `Message`.
+    #[derive(Debug, Clone)]
+    pub enum Frame {
+        Init {
+            namespace: NamespaceId,
+            message: crate::sync::ProtocolMessage,
+        },
+        Sync(crate::sync::ProtocolMessage),
+        Abort {
+            reason: AbortReason,
+        },
+    }
+
+    impl From<Message> for Frame {
+        fn from(m: Message) -> Self {
+            match m {
+                Message::Init { namespace, message } => Frame::Init { namespace, message },
+                Message::Sync(m) => Frame::Sync(m),
+                Message::Abort { reason } => Frame::Abort { reason },
+            }
+        }
+    }
+
+    impl From<Frame> for Message {
+        fn from(m: Frame) -> Self {
+            match m {
+                Frame::Init { namespace, message } => Message::Init { namespace, message },
+                Frame::Sync(m) => Message::Sync(m),
+                Frame::Abort { reason } => Message::Abort { reason },
+            }
+        }
+    }
+
+    /// Encode one frame with the real encoder (length prefix + postcard body).
+    pub fn encode_frame(frame: Frame) -> anyhow::Result<Vec<u8>> {
+        let mut dst = BytesMut::new();
+        SyncCodec.encode(frame.into(), &mut dst)?;
+        Ok(dst.to_vec())
+    }
+
+    /// The real decoder over a caller-fed buffer.
+    #[derive(Default)]
+    pub struct StreamDecoder {
+        buf: BytesMut,
+    }
+
+    impl StreamDecoder {
+        pub fn feed(&mut self, bytes: &[u8]) {
+            self.buf.extend_from_slice(bytes);
+        }
+        /// `Ok(None)`: need more data.
+        pub fn decode(&mut self) -> anyhow::Result<Option<Frame>> {
+            Ok(SyncCodec.decode(&mut self.buf)?.map(Into::into))
+        }
+        pub fn buffered(&self) -> usize {
+            self.buf.len()
+        }
+    }
+
+    pub const MAX_FRAME: usize = MAX_MESSAGE_SIZE;
+
+    /// The initiator side of a session, exactly as `connect_and_sync` runs it.
+    pub async fn alice<R: AsyncRead + Unpin, W: AsyncWrite + Unpin>(
+        writer: &mut W,
+        reader: &mut R,
+        handle: &SyncHandle,
+        namespace: NamespaceId,
+        peer: PublicKey,
+    ) -> Result<SyncOutcome, ConnectError> {
+        run_alice(writer, reader, handle, namespace, peer).await
+    }
+}
